@@ -636,9 +636,9 @@ def check_wire(family, raw, data, exc, note, nreq=1):
     resps, probs = parse_responses(data)
     head, _ = head_body(raw)
     for pid, det in probs:
-        if pid == 'response-header-control-char' and re.search(rb'[\x00-\x08\x0b\x0c\x0e-\x1f\x7f]', head) \
+        if pid == 'response-header-control-char' and re.search(rb'[\x00-\x08\x0b\x0c\x0e-\x1f\x7f]', raw) \
                 and det.lower().startswith(("b'cimerrordetails:", 'b"cimerrordetails:')):
-            R.violation('known:request-header-control-char-echoed-in-CIMErrorDetails', request=rq(raw), header_line=det)
+            R.violation('known:request-control-char-echoed-in-CIMErrorDetails', request=rq(raw), header_line=det)
         else:
             R.violation(pid, family=family, request=rq(raw), detail=det, response=repr(data[:600]))
     if any(pid != 'response-header-control-char' for pid, _ in probs):
@@ -932,7 +932,7 @@ def versions():
         for v in (major + '.0', major + '.1', major + '.4', major + '.10', major + '.99'):
             out.append((kw, v, ['ok']))
         for v in (other + '.0', '3.0', '0.9', '', 'x', major * 2, '9' + major + '.0', '-' + major + '.0', major + '0.0', '.'+ major,
-                  'v' + major + '.0', '\xe9.0', '&#10;' + other + '.0&#10;X-Injected: yes', 'a' * 3000):
+                  'v' + major + '.0', '\xe9.0', other + '\x7f0', '&#10;' + other + '.0&#10;X-Injected: yes', 'a' * 3000):
             out.append((kw, v, ['http:400|501:' + cat]))
         for v in (major, major + '.', major + '.x', ' ' + major + '.0', major + '.0.1', '0' + major + '.0', major + '.0 '):
             out.append((kw, v, ['ok', 'http:400|501:' + cat]))
